@@ -14,6 +14,110 @@ def gen(name, body=""):
     return f"---- MODULE {name}Gen ----\nEXTENDS {name}\n" + execb.srctab_tla() + body + "====\n"
 
 
+def exposed(toks):
+    """(exposed names of the FROM / JOIN sources of the outermost statement, qualifiers used at that level)"""
+    names, quals, i, n = [], [], 0, len(toks)
+    d0 = [t for t in toks if t.get("d", 0) == 0]
+    k = 0
+    in_from = False
+    while k < len(d0):
+        t = d0[k]
+        if t["t"] == "word" and t["v"] in ("FROM", "JOIN"):
+            in_from = True
+            k += 1
+            continue
+        if t["t"] == "word" and t["v"] in ("WHERE", "GROUP", "ORDER", "HAVING", "ON", "LIMIT", "SELECT", "USING", "LEFT", "INNER", "CROSS", "RIGHT", "FULL", "OUTER"):
+            in_from = False
+        if in_from:
+            if t["t"] == "punct" and t["v"] == "(":
+                # a bracketed source: its alias is the identifier after the matching bracket
+                j = k + 1
+                while j < len(d0) and not (d0[j]["t"] == "punct" and d0[j]["v"] == ")"):
+                    j += 1
+                if j + 1 < len(d0) and d0[j + 1]["t"] == "word" and d0[j + 1]["v"] == "AS":
+                    j += 1
+                if j + 1 < len(d0) and d0[j + 1]["t"] == "id":
+                    names.append(d0[j + 1]["v"])
+                    k = j + 2
+                else:
+                    names.append("")
+                    k = j + 1
+                in_from = k < len(d0) and d0[k]["t"] == "punct" and d0[k]["v"] == ","
+                continue
+            if t["t"] == "id":
+                j = k
+                if j + 1 < len(d0) and d0[j + 1]["t"] == "word" and d0[j + 1]["v"] == "AS":
+                    j += 1
+                if j + 1 < len(d0) and d0[j + 1]["t"] == "id":
+                    names.append(d0[j + 1]["v"])
+                    k = j + 2
+                else:
+                    names.append(t["v"])
+                    k = j + 1
+                in_from = k < len(d0) and d0[k]["t"] == "punct" and d0[k]["v"] == ","
+                continue
+        elif t["t"] == "id" and k + 1 < len(d0) and d0[k + 1]["t"] == "punct" and d0[k + 1]["v"] == ".":
+            quals.append(t["v"])
+        k += 1
+    return names, sorted(set(quals))
+
+
+def auto_alias_family(rep, tier):
+    """statements over several un-aliased subqueries, flat and nested, brought in through from_() and join() in every order: the automatic sqN
+    aliases of one statement level must be pairwise distinct and every qualifier must name one of them (PT_Builder!ExposedOK, judge J_Names)"""
+    import itertools
+    import pypika_tortoise as P
+
+    def flat(Q, name):
+        tb = P.Table(name)
+        return Q.from_(tb).select(tb.a)
+
+    def nested(Q, name):
+        return Q.from_(flat(Q, name)).select("a")
+
+    def nested2(Q, name):
+        return Q.from_(nested(Q, name)).select("a")
+    shapes = {"flat": flat, "nested": nested, "nested2": nested2}
+    events, meta = [], []
+    for d, Q in core.query_classes().items():
+        if tier == "quick" and d in ("mssql", "oracle"):
+            continue
+        ld = core.lex_dialect(d)
+        t = P.Table("t")
+        for n in (2, 3):
+            for combo in itertools.product(sorted(shapes), repeat=n):
+                for how in itertools.product(("from_", "join"), repeat=n):
+                    for base in ("table", "none"):
+                        if base == "none" and how[0] != "from_":
+                            continue
+                        exc, text = "", ""
+                        try:
+                            subs = [shapes[s](Q, "u%d" % k) for k, s in enumerate(combo)]
+                            q = Q.from_(t) if base == "table" else core.empty_builder(Q)
+                            first = t if base == "table" else subs[0]
+                            for s, h in zip(subs, how):
+                                q = q.from_(s) if h == "from_" else q.join(s).on(first.a == s.a)
+                            q = q.select(*[s.a for s in subs])
+                            text = str(q)
+                        except Exception as ex:  # noqa
+                            exc = type(ex).__name__
+                        names, quals = exposed(lexer.lex(text, ld)) if not exc else ([], [])
+                        events.append({"tid": len(events), "names": names, "quals": quals, "exc": exc})
+                        meta.append((d, {"subqueries": list(combo), "brought_in_by": list(how), "base": base}, text))
+    results = tlc.judge_shards("J_NamesGen", "CONSTANT SrcTab <- G_SrcTab\nINIT Init\nNEXT Next\n", events, shard=max(300, len(events) // 8 + 1),
+                               extra_files={"J_NamesGen.tla": gen("J_Names")}, timeout=1200)
+    rep.add_tlc(results)
+    if sum(max(x.distinct - 1, 0) for x in results) != len(events):
+        raise core.MachineryError("J_Names did not consume every event")
+    for res in results:
+        for v in res.json_tagged("V"):
+            d, prog, text = meta[v["tid"]]
+            rep.discrepancy([["auto-alias", v["why"], "+".join(prog["subqueries"]), "+".join(prog["brought_in_by"]), prog["base"]]],
+                            {"dialect": d, "program": prog, "sql": text, "exposed_names": events[v["tid"]]["names"], "qualifiers": events[v["tid"]]["quals"], "error": events[v["tid"]]["exc"]},
+                            what="automatic subquery aliases of one statement level: " + v["why"])
+    return len(events)
+
+
 def run(tier: str) -> int:
     rep = core.Report("C11", tier)
     r = tlc.run("MC_C11Gen", f"CONSTANTS\nMaxClauses = {2 if tier == 'quick' else 3}\nSrcTab <- G_SrcTab\nINIT Init\nNEXT Next\nINVARIANT Emit\nINVARIANT RefQualified\n",
@@ -54,8 +158,10 @@ def run(tier: str) -> int:
     rep.add_tlc(results)
     if sum(max(x.distinct - 1, 0) for x in results) != len(events):
         raise core.MachineryError("J_C11 did not consume every event")
-    rep.traces = len(events)
-    rep.evaluations = len(events)
+    n_auto = auto_alias_family(rep, tier)
+    rep.extra["auto_alias_programs"] = n_auto
+    rep.traces = len(events) + n_auto
+    rep.evaluations = rep.traces
     rep.distinct = {json.dumps(m[1]["hist"], sort_keys=True) for m in meta}
     bad = []
     for res in results:
